@@ -56,16 +56,7 @@ def cmifOp (j : Json) : Except String Json := do
   | .ok cs => pure (Json.mkObj [("curves", listToJson (listToJson ratToJson) cs)])
   | .error e => pure (Json.mkObj [("raise", Json.str e)])
 
-/-- `{"op":"mpe_column","Fn":..,"order":k}` → the column `Fn_pol[:, order]` or `null`. -/
-def mpeColOp (j : Json) : Except String Json := do
-  let Fn ← omatOfJson (← field j "Fn")
-  let o ← natOfJson (← field j "order")
-  match mpeColumn Fn o with
-  | some col => pure (listToJson oratToJson col)
-  | none => pure Json.null
-
 def ops : List (String × (Json → Except String Json)) :=
-  [("stab_markers", stabOp), ("cluster_markers", clusterOp), ("cmif_curves", cmifOp),
-   ("mpe_column", mpeColOp)]
+  [("stab_markers", stabOp), ("cluster_markers", clusterOp), ("cmif_curves", cmifOp)]
 
 end PV.Ops.C20
